@@ -34,6 +34,7 @@ def load_findings(pid):
                 continue
             e = json.loads(line)
             if e.get('property') == pid:
+                e.setdefault('obligation', '<stand-in>')
                 out.append(e)
     return out
 
@@ -323,6 +324,19 @@ def main(argv=None):
             else:
                 viol_lines.append('VIOLATION property=%s replay=%s' % (pid, p))
 
+    # findings recorded as narrowly scoped exclusions inside a stand-in script (input classes generated but not judged)
+    for f in findings:
+        if f.get('standin_script') and f.get('exclusion_id'):
+            try:
+                txt = open(os.path.join(VERIF, 'standins', f['standin_script'])).read()
+            except OSError:
+                txt = ''
+            if ("'%s'" % f['exclusion_id']) in txt or ('"%s"' % f['exclusion_id']) in txt:
+                l = 'KNOWN-FINDING: property=%s %s' % (pid, f['what'])
+                if l not in known_lines:
+                    known_lines.append(l)
+            else:
+                stale.append('KNOWN-FINDING-STALE: property=%s %s (exclusion %s no longer present in %s)' % (pid, f['what'], f['exclusion_id'], f['standin_script']))
     for l in known_lines:
         print(l)
     for l in stale:
